@@ -19,7 +19,7 @@ RULE = ("every code point 0..0x10FFFF (incl. surrogates) in the seven contexts c
         "one key per batch after the first batches); the exact number of changed names is "
         "coverage.names_changed.")
 FLOOR = {"quick": 20000, "thorough": 20000}
-BUDGET = {"quick": 40, "thorough": 420}
+BUDGET = {"quick": 45, "thorough": 420}
 CASE_TIMEOUT = 60
 NEEDS_EVENTS = True
 EXHAUSTIVE = {"quick": True, "thorough": True}
